@@ -187,7 +187,14 @@ func TestC03_PKCE(t *testing.T) {
 			case "correct":
 				verifier = v0
 			}
-			form := url.Values{"grant_type": {"authorization_code"}, "code": {ar.Code}, "redirect_uri": {redirectURI}}
+			// grant_type values are case-sensitive; whatever a handler makes of another spelling, the code stays protected
+			spelling := "authorization_code"
+			if !decisive && rapid.IntRange(0, 7).Draw(rt, "grantTypeSpelling") == 0 {
+				spelling = rapid.SampledFrom([]string{"Authorization_Code", "AUTHORIZATION_CODE", "authorization_Code"}).Draw(rt, "spelling")
+				k += "+grant_type=" + spelling
+				h.Label("non-canonical-grant_type")
+			}
+			form := url.Values{"grant_type": {spelling}, "code": {ar.Code}, "redirect_uri": {redirectURI}}
 			if public {
 				form.Set("client_id", "pk")
 			}
@@ -222,10 +229,11 @@ func TestC03_PKCE(t *testing.T) {
 			} else {
 				allowed = verifier == "" && !enforcedForClient
 			}
-			mayRefuse := false
+			mayRefuse := spelling != "authorization_code"
 			if faulted {
 				// a failed lookup never entitles anybody; refusing a correct attempt is the expected outcome
 				mayRefuse = true
+				_ = spelling
 				if hasChallenge || enforcedForClient {
 					allowed = false
 				}
